@@ -59,6 +59,7 @@ type Server struct {
 	serial  atomic.Uint32
 	connSeq atomic.Int64
 	closers []func()
+	connEnd map[int64]int64 // stream connection id -> clock.Now() when its read side ended (peer closed / error)
 	wg      sync.WaitGroup
 	closed  atomic.Bool
 
@@ -67,6 +68,13 @@ type Server struct {
 
 func NewServer(tag string) *Server {
 	return &Server{Tag: tag, Addr: map[string]string{}}
+}
+
+// ConnEndedAt returns when the peer closed stream connection id (0 = still open / unknown).
+func (s *Server) ConnEndedAt(id int64) int64 {
+	s.mu.Lock()
+	defer s.mu.Unlock()
+	return s.connEnd[id]
 }
 
 // Log returns a snapshot of the query log.
@@ -300,6 +308,14 @@ func (s *Server) serveStream(transport string, raw net.Conn, cfg *tls.Config) {
 		sni = tc.ConnectionState().ServerName
 	}
 	var wm sync.Mutex
+	defer func() {
+		s.mu.Lock()
+		if s.connEnd == nil {
+			s.connEnd = map[int64]int64{}
+		}
+		s.connEnd[id] = clock.Now()
+		s.mu.Unlock()
+	}()
 	for {
 		var hdr [2]byte
 		if _, err := io.ReadFull(c, hdr[:]); err != nil {
